@@ -184,7 +184,7 @@ theorem Refines.step {e : ESlab} {m : List (Nat × Nat)} (h : SlabInv e) (r : Re
               exact h.disj a s ha (by rw [hf, ← e']; exact List.mem_cons_self)
           have hc : (eAlloc e).2.cells = e.cells := by
             unfold eAlloc; cases e.free <;> rfl
-          simp [aget_aset, this, hc]
+          simp [this, hc]
 
 theorem slab_run_from (ops : List EOp) : ∀ (e : ESlab) (m : List (Nat × Nat)), SlabInv e → Refines e m →
     SlabInv (ops.foldl (eStep false) e) ∧ Refines (ops.foldl (eStep false) e) (ops.foldl mStep m) := by
